@@ -1,5 +1,6 @@
 //! tsim — deterministic simulator with fault injection for tsrun (see /verif/DESIGN.md).
 
+mod capi;
 mod framework;
 mod host;
 mod proggen;
@@ -21,6 +22,10 @@ fn check(id: &str, tier: Tier) -> i32 {
         "C13" => {
             let n = ctx.runs(200_000, 20_000_000);
             run_check(&props::c13::C13, &ctx, &[("histories", n)], |_, _| Vec::new()).exit
+        }
+        "C19" => {
+            let n = ctx.runs(3_000, 200_000);
+            run_check(&props::c19::C19, &ctx, &[("programs", n)], |_, _| Vec::new()).exit
         }
         "C09" => {
             let n = ctx.runs(3_000, 150_000);
@@ -120,6 +125,7 @@ fn replay(path: &Path) -> i32 {
         "C12" => replay_main(&props::c12::C12, path),
         "C08" => replay_main(&props::c08::C08, path),
         "C09" => replay_main(&props::c09::C09, path),
+        "C19" => replay_main(&props::c19::C19, path),
         _ => {
             eprintln!("HARNESS-ERROR: replay file names unknown property {:?}", prop);
             2
@@ -193,6 +199,7 @@ fn main() {
                 "C07" => serde_json::to_value(props::c07::C07.generate(&mut r, idx as usize, Tier::Quick)).ok(),
                 "C08" => serde_json::to_value(props::c08::C08.generate(&mut r, idx as usize, Tier::Quick)).ok(),
                 "C09" => serde_json::to_value(props::c09::C09.generate(&mut r, idx as usize, Tier::Quick)).ok(),
+                "C19" => serde_json::to_value(props::c19::C19.generate(&mut r, idx as usize, Tier::Quick)).ok(),
                 "C11" => serde_json::to_value(props::c11::C11.generate(&mut r, idx as usize, Tier::Quick)).ok(),
                 "C12" => serde_json::to_value(props::c12::C12.generate(&mut r, idx as usize, Tier::Quick)).ok(),
                 "C14" => serde_json::to_value(props::c14::C14.generate(&mut r, idx as usize, Tier::Quick)).ok(),
